@@ -117,23 +117,23 @@ theorem options_unmarshal_marshal (defs : Defs) (hu : noUnknown defs = true) (os
 
 /-- The size reported in advance is the length of the RFC encoding. -/
 theorem udp_size_eq (m : Msg) (h : WF .udp m = true) : UdpCoder.size m = .ok (encUdp m).length := by
-  obtain ⟨_, _, htk⟩ := udp_valid_of_WF m h
+  obtain ⟨_, _, htk, _⟩ := udp_valid_of_WF m h
   rw [udp_size m htk, ← udpB_length, udpB_eq_spec m h]
 
 /-- Buffer at least `size`: no panic, returns `(size, nil)`, the buffer then starts with exactly the RFC
 encoding and everything behind it is untouched. -/
 theorem udp_encode_eq_spec (m : Msg) (h : WF .udp m = true) (buf : Bytes) (hfit : (encUdp m).length ≤ buf.length) :
     UdpCoder.encode m buf = .ok ⟨(encUdp m).length, false, encUdp m ++ buf.drop (encUdp m).length⟩ := by
-  obtain ⟨hmid, htyp, htk⟩ := udp_valid_of_WF m h
-  have := udp_encode_big m hmid htyp htk buf (by rw [udpB_eq_spec m h]; exact hfit)
+  obtain ⟨hmid, htyp, htk, hcd⟩ := udp_valid_of_WF m h
+  have := udp_encode_big m hmid htyp hcd htk buf (by rw [udpB_eq_spec m h]; exact hfit)
   rwa [udpB_eq_spec m h] at this
 
 /-- Every buffer shorter than `size` (contents and length arbitrary): returns `(size, ErrTooSmall)`, never
 panics, and the buffer is returned exactly as it was — nothing is written, inside or outside. -/
 theorem udp_encode_small (m : Msg) (h : WF .udp m = true) (buf : Bytes) (hc : buf.length < (encUdp m).length) :
     UdpCoder.encode m buf = .ok ⟨(encUdp m).length, true, buf⟩ := by
-  obtain ⟨hmid, htyp, htk⟩ := udp_valid_of_WF m h
-  have := CoapVerif.Lemmas.CoderEncode.udp_encode_small m hmid htyp htk buf (by rw [udpB_eq_spec m h]; exact hc)
+  obtain ⟨hmid, htyp, htk, hcd⟩ := udp_valid_of_WF m h
+  have := CoapVerif.Lemmas.CoderEncode.udp_encode_small m hmid htyp hcd htk buf (by rw [udpB_eq_spec m h]; exact hc)
   rwa [udpB_eq_spec m h] at this
 
 /-- Decoding the encoding yields the message and consumes exactly the bytes produced. -/
@@ -150,11 +150,12 @@ theorem udp_roundtrip (m : Msg) (h : WF .udp m = true) (buf : Bytes) (hb : buf.l
   exact udp_decode_encode m h _ (Nat.le_refl _)
 
 /-- PARTIAL (known finding F15).  Full statement of the property: a message with token longer than 8
-bytes, type outside 0..3 or message ID outside 0..65535 is refused with an error, for every buffer.
-Proved: the same with type outside 0..255 — `message.ValidateType` admits 4..255 and the encoder then
-keeps only two bits (see `Findings/C01.lean` for the witness that the full statement is false). -/
+bytes, code above 255, type outside 0..3 or message ID outside 0..65535 is refused with an error, for every
+buffer.  Proved: the same with type outside 0..255 — `message.ValidateType` admits 4..255 and the encoder then
+keeps only two bits (see `Findings/C01.lean` for the witness that the full statement is false).  The code
+clause holds since the fix of F27 (`Encode` refuses `m.Code > 0xff`; `codes.Code` is a `uint16`). -/
 theorem udp_rejects_partial (m : Msg) (buf : Bytes)
-    (h : m.token.length > 8 ∨ m.typ < 0 ∨ m.typ > 255 ∨ m.mid < 0 ∨ m.mid > 65535) :
+    (h : m.token.length > 8 ∨ m.code > 255 ∨ m.typ < 0 ∨ m.typ > 255 ∨ m.mid < 0 ∨ m.mid > 65535) :
     ∃ e, UdpCoder.encode m buf = .error e ∧ e ≠ .panic := by
   unfold UdpCoder.encode
   by_cases hm : 0 ≤ m.mid ∧ m.mid ≤ 65535
@@ -164,10 +165,12 @@ theorem udp_rejects_partial (m : Msg) (buf : Bytes)
     by_cases ht : 0 ≤ m.typ ∧ m.typ ≤ 255
     · have ht' : UdpCoder.validateType m.typ = true := by
         simp only [UdpCoder.validateType, Bool.and_eq_true, decide_eq_true_eq]; exact ht
-      have htk : m.token.length > 8 := by omega
-      have hs : UdpCoder.size m = .error .badToken := by
-        unfold UdpCoder.size; simp [maxTokenSize, htk]
-      exact ⟨.badToken, by simp [hm', ht', hs], by decide⟩
+      by_cases hc : m.code > 255
+      · exact ⟨.badCode, by simp [hm', ht', hc], by decide⟩
+      · have htk : m.token.length > 8 := by omega
+        have hs : UdpCoder.size m = .error .badToken := by
+          unfold UdpCoder.size; simp [maxTokenSize, htk]
+        exact ⟨.badToken, by simp [hm', ht', hc, hs], by decide⟩
     · have ht' : UdpCoder.validateType m.typ = false := by
         unfold UdpCoder.validateType
         by_cases h0 : 0 ≤ m.typ
@@ -214,9 +217,9 @@ theorem tcp_header_classes (l : Nat) (h : l < messageMaxLen) (r : Bytes) :
 theorem tcp_size_eq (m : Msg) (h : WF .tcp m = true) : TcpCoder.size m = .ok (encTcp m).length := by
   have h' := h
   simp only [WF, Bool.and_eq_true, decide_eq_true_eq] at h'
-  obtain ⟨⟨⟨htk, _⟩, _⟩, _⟩ := h'
+  obtain ⟨⟨⟨htk, hcd⟩, _⟩, _⟩ := h'
   unfold TcpCoder.size
-  rw [tcp_encode_spec m htk [], tcpB_eq_spec m h]
+  rw [tcp_encode_spec m htk (by omega) [], tcpB_eq_spec m h]
   have : 0 < (encTcp m).length := by unfold encTcp; simp
   simp [this, bind, Except.bind]
 
@@ -224,8 +227,8 @@ theorem tcp_encode_eq_spec (m : Msg) (h : WF .tcp m = true) (buf : Bytes) (hfit 
     TcpCoder.encode m buf = .ok ⟨(encTcp m).length, false, encTcp m ++ buf.drop (encTcp m).length⟩ := by
   have h' := h
   simp only [WF, Bool.and_eq_true, decide_eq_true_eq] at h'
-  obtain ⟨⟨⟨htk, _⟩, _⟩, _⟩ := h'
-  rw [tcp_encode_spec m htk buf, tcpB_eq_spec m h]
+  obtain ⟨⟨⟨htk, hcd⟩, _⟩, _⟩ := h'
+  rw [tcp_encode_spec m htk (by omega) buf, tcpB_eq_spec m h]
   have : ¬ (buf.length < (encTcp m).length) := by omega
   simp [this]
 
@@ -233,8 +236,8 @@ theorem tcp_encode_small (m : Msg) (h : WF .tcp m = true) (buf : Bytes) (hc : bu
     TcpCoder.encode m buf = .ok ⟨(encTcp m).length, true, buf⟩ := by
   have h' := h
   simp only [WF, Bool.and_eq_true, decide_eq_true_eq] at h'
-  obtain ⟨⟨⟨htk, _⟩, _⟩, _⟩ := h'
-  rw [tcp_encode_spec m htk buf, tcpB_eq_spec m h]
+  obtain ⟨⟨⟨htk, hcd⟩, _⟩, _⟩ := h'
+  rw [tcp_encode_spec m htk (by omega) buf, tcpB_eq_spec m h]
   simp [hc]
 
 /-- Header pre-parse of an encoded frame (followed by anything): consumes exactly the header bytes, declares
@@ -254,12 +257,19 @@ theorem tcp_decode_encode (m : Msg) (h : WF .tcp m = true) (cap : Nat) (hc : m.o
     TcpCoder.decode cap (encTcp m) = .ok (canon .tcp m, (encTcp m).length) := by
   rw [tcp_decode_eq]; exact tcpDec_encTcp m h cap hc
 
-/-- An oversized token is refused by `Encode` and `Size`, for every buffer. -/
-theorem tcp_rejects (m : Msg) (buf : Bytes) (h : m.token.length > 8) :
-    TcpCoder.encode m buf = .error .badToken ∧ TcpCoder.size m = .error .badToken := by
-  have : TcpCoder.encode m buf = .error .badToken := by unfold TcpCoder.encode; simp [maxTokenSize, h]
-  refine ⟨this, ?_⟩
-  unfold TcpCoder.size TcpCoder.encode; simp [maxTokenSize, h, bind, Except.bind]
+/-- An oversized token or a code above 255 is refused by `Encode` and `Size` (= `Encode(m, nil)`), for every buffer. -/
+theorem tcp_rejects (m : Msg) (buf : Bytes) (h : m.token.length > 8 ∨ m.code > 255) :
+    (∃ e, TcpCoder.encode m buf = .error e ∧ e ≠ .panic) ∧ (∃ e, TcpCoder.size m = .error e ∧ e ≠ .panic) := by
+  have key : ∀ b : Bytes, ∃ e, TcpCoder.encode m b = .error e ∧ e ≠ .panic := by
+    intro b
+    unfold TcpCoder.encode
+    by_cases htk : m.token.length > 8
+    · exact ⟨.badToken, by simp [maxTokenSize, htk], by decide⟩
+    · have hc : m.code > 255 := by omega
+      exact ⟨.badCode, by simp [maxTokenSize, htk, hc], by decide⟩
+  refine ⟨key buf, ?_⟩
+  obtain ⟨e, he, hne⟩ := key []
+  exact ⟨e, by unfold TcpCoder.size; simp [he, bind, Except.bind], hne⟩
 
 /-! ## Pooled marshal / unmarshal -/
 
@@ -346,6 +356,8 @@ example : UdpCoder.encode exMsg (List.replicate 100 0) = .ok ⟨(encUdp exMsg).l
   udp_encode_small exMsg (by decide) (List.replicate 100 0) (by decide)
 example : TcpCoder.getHeader 65805 = (15, [0, 0, 0, 0]) ∧ TcpCoder.getHeader 268 = (13, [255]) := by decide
 example : ∃ e, UdpCoder.encode { exMsg with mid := 65536 } [] = .error e ∧ e ≠ .panic :=
+  udp_rejects_partial _ _ (by decide)
+example : ∃ e, UdpCoder.encode { exMsg with code := 300 } [] = .error e ∧ e ≠ .panic :=
   udp_rejects_partial _ _ (by decide)
 
 end CoapVerif.Props.C01
